@@ -24,7 +24,11 @@ ASSUMPTIONS = [
     "A-TCP: the stream is a FIFO; a reset may discard data the local side has not read yet (so only 'prefix' is claimed for reset)",
     "TLS alerts and the engine's reaction to a truncated stream are OpenSSL's (replayed, not modelled)",
 ]
-TRUSTED = ["fork/waitpid outcome classification in harness/scen/peerfail.cpp", "system OpenSSL 3 for the TLS half"]
+TRUSTED = ["fork/waitpid outcome classification in harness/scen/peerfail.cpp", "system OpenSSL 3 for the TLS half",
+           "parsing of transcript lines into typed observations (Drive/C15.lean toObs / evObs; the predicate itself is "
+           "Spec/C15.lean and proved to accept every trace of the plain-socket model: spec_holds_on_model_partial)",
+           "TLS half of the predicate: the clauses about delivered data / reporting are statements about OpenSSL (the engine "
+           "is replayed, not modelled), so spec_holds_on_model_partial covers the plain socket only"]
 ALL_TAGS = ["send.unlimited", "send.zero", "send.limited", "recv.unlimited", "recv.zero", "recv.limited",
             "task.readable", "task.writable", "task.huperr", "enq"]
 EXHAUSTIVE = {"thorough": False, "quick": False}
@@ -132,7 +136,9 @@ def gen(rng, tier):
 
 
 TECHNIQUE = ("Lean 4 theorems over all kernel answer scripts followed by K1 (dead-peer defaults) + replay correspondence of the real "
-             "sockets against a peer that closes / half-closes / resets at chosen offsets, each case in a forked child")
+             "sockets against a peer that closes / half-closes / resets at chosen offsets, each case in a forked child; the run-time "
+             "oracle is a separate typed module (Spec/C15.lean: specRun / specFinal over Obs) proved to accept every trace of the "
+             "model (simulation relation + liveness counters, induction over histories)")
 LEVEL_TEXT = ("Machine-checked theorems about the send/receive loops and the asynchronous layer for EVERY finite history of kernel "
               "answers followed by the kernel's dead-peer behaviour (K1): an unlimited Send ends in an exception after at most "
               "(scripted answers + 1) send calls and never waits without a following send (sendAll_dead_peer_terminates); the first "
@@ -142,7 +148,17 @@ LEVEL_TEXT = ("Machine-checked theorems about the send/receive loops and the asy
               "a prefix of the peer's stream, all of it for an orderly close (delivered_is_prefix); every send carries the extracted "
               "sendFlags with MSG_NOSIGNAL (nosignal_everywhere). Tied to /repo on every run: real plain and TLS sockets of all three API "
               "levels against a peer that fails at swept byte offsets and handshake stages, each in a forked child with SIGPIPE at default "
-              "disposition; kernel (and OpenSSL) answers are replayed into the model, Spec.C15 is evaluated on the observations.")
+              "disposition; kernel (and OpenSSL) answers are replayed into the model, Spec.C15 is evaluated on the observations. "
+              "The predicate evaluated at run time is Spec/C15.lean (typed observations, total functions specStep / specRun / specFinal; the "
+              "driver only parses lines and calls them) and spec_holds_on_model_partial proves that it accepts EVERY trace of the plain-socket model: "
+              "for every API level, buffer size, payload and every history of any length (peer sends in any segmentation, Send / Receive with "
+              "any timeout and any scripted kernel answers, async Send and driver steps with any poll result, close / half close / reset at any "
+              "point with or without loss of unread data, destruction) that satisfies the decidable environment assumptions histOk (kernel "
+              "never accepts 0 bytes; K1; the scenario is played to its end) - so every clause of the oracle (runtime error only, nothing thrown "
+              "out of Step, MSG_NOSIGNAL, waits within the timeout semantics, disconnect handler exactly once, promises resolved or broken, "
+              "delivered = prefix / complete for an orderly close, failure reported) is a consequence of the model, the oracle is never "
+              "stricter than the model, and a spec verdict on the implementation is a difference between implementation and model. For TLS "
+              "endpoints the same predicate is evaluated, but the theorem does not cover them (engine replayed, not modelled).")
 LEVEL_NOTE = ("Trusted: Lean kernel; axioms propext/Quot.sound/Classical.choice; hand-written model (replay correspondence on the generated "
               "cases only); harness incl. fork/wait classification; vos shim. K1 and TCP teardown timing are Linux behaviour (assumed, "
               "and replayed as observed); that a reset may drop unread data is why only 'prefix' is claimed for resets. C++ exceptions "
